@@ -9,7 +9,7 @@ import UF.Proofs.DnsRewriteParse
   The tables of miekg/dns, the keyword list and the handler keys are generated facts; the theorems
   are re-checked against them on every run.
 -/
-namespace UF
+namespace UF.H
 open Bytes
 
 /-- Every accepted value has the published shape. -/
@@ -121,14 +121,6 @@ theorem c10_keywords :
 
 /-! Non-vacuity: each form is accepted for some value (and the hypotheses of `c10` are satisfiable). -/
 
-/-- An oracle that knows two addresses. -/
-def exampleExt : Ext where
-  psl := fun _ => ([], false)
-  parseAddr := fun s =>
-    if s == lit "1.2.3.4" then some { is4 := true, val := 16909060 }
-    else if s == lit "::1" then some { is4 := false, val := 1 } else none
-  parsePrefix := fun _ => none
-  pat := fun _ _ _ => false
 
 example : (loadDNSRewrite exampleExt (lit "NOERROR;MX;10 mail.example.net")).toOption =
     some { rrType := 15, value := .mx 10 (lit "mail.example.net") } := by decide
@@ -146,4 +138,4 @@ example : (loadDNSRewrite exampleExt (lit "NOERROR;HTTPS;1 . alpn=h3 alpn=h2")).
 example : shapeOK { rrType := 1, value := .addr { is4 := false, val := 1 } } = false := by decide
 example : shapeOK { rrType := 15, value := .mx 65536 (lit "x") } = false := by decide
 
-end UF
+end UF.H
